@@ -166,6 +166,9 @@ class Commit(RPC):
             if persist is not None:
                 sub_ele(node, "persist").text = persist
         if persist_id:
+            if not confirmed:
+                # <persist-id> is a parameter of the :confirmed-commit capability as well (RFC 6241 8.4.5.1)
+                self._assert(":confirmed-commit")
             sub_ele(node, "persist-id").text = persist_id
 
         return self._request(node)
